@@ -386,6 +386,19 @@ def evaluate(case, out):
             out.lib_exception("sample_size(prefix)", e)
             return
         out.expect(got == k, "simulated-estimate!=crossing-of-prefix", lambda: {"got": got, "want": k, "reps": case["reps"], "quantile": case["quantile"]})
+        # the assertion-level entry point with the same prefix (the observations made so far)
+        try:
+            from shangrla.core.Audit import Assertion, Contest
+
+            con = Contest.from_dict({"id": "C", "name": "C", "risk_limit": alpha, "cards": N, "choice_function": "PLURALITY", "n_winners": 1,
+                                     "candidates": ["A", "B"], "winner": ["A"], "audit_type": "POLLING", "use_style": True})
+            asn = Assertion(contest=con, winner="A", loser="B", margin=0.1, test=nonneg.make_test(cfg))
+            got2 = asn.find_sample_size(data=pref, prefix=True, reps=case["reps"], quantile=case["quantile"], seed=case["seed"])
+        except Exception as e:  # noqa
+            out.lib_exception("Assertion.find_sample_size(prefix)", e)
+            return
+        out.expect(got2 == k and asn.sample_size == k, "assertion-level-simulated-estimate!=crossing-of-prefix",
+                   lambda: {"got": got2, "want": k, "reps": case["reps"], "quantile": case["quantile"], "len(prefix)": len(pref)})
         out.nontrivial = k > 1
         return
     if mode == "raire-estimator":
